@@ -342,4 +342,36 @@ def importOd (fileName : Str) (doc : Doc) (nodeId : Option Int) : Option OD :=
   let sfx := suffixOf fileName
   if sfx = c!".eds" ∨ sfx = c!".dcf" then importEds doc nodeId else none
 
+/-! ### histories: importing from paths of a file system that is rewritten in between
+
+`import_eds(source, node_id)` with a path opens the file and parses what is in it *now*: the
+imported dictionary is a function of the current content of that path and of nothing that
+happened before (no state survives a call).  The file system is a dictionary path → parsed
+document; writing replaces the content of one path. -/
+
+abbrev Files := List (Str × Doc)
+
+/-- the file at `path` is (re)written with the text of `doc` -/
+def Files.write (fs : Files) (path : Str) (doc : Doc) : Files := dictSet path doc fs
+
+/-- `import_od(path, node_id)`; `none` = exception (FileNotFoundError included) -/
+def importPath (fs : Files) (path : Str) (nodeId : Option Int) : Option OD :=
+  match dictGet path fs with
+  | none => none
+  | some doc => importOd path doc nodeId
+
+/-- one step of a history: the file `path` is written, then imported under `nodeId` -/
+structure ImportStep where
+  path : Str
+  doc : Doc
+  nodeId : Option Int
+deriving Repr, DecidableEq
+
+/-- the results of a whole history, step by step, from the file system `fs` on -/
+def importHistory (fs : Files) : List ImportStep → List (Option OD)
+  | [] => []
+  | s :: r =>
+    let fs' := fs.write s.path s.doc
+    importPath fs' s.path s.nodeId :: importHistory fs' r
+
 end Canopen.Eds
